@@ -233,6 +233,16 @@ func mutate(rng *core.Rng, src string, k int) string {
 // localsHeavy are Eval-level snippets written so that every fusion fires on
 // locals inside functions and blocks, including error paths.
 var c02Snippets = []string{
+	// a package-level variable of function type reassigned between two executions of one call site
+	`func f1(a int) int { return a + 10 }; func f2(a int) int { return a * 20 }; var fv = f1; func run() []int { r := []int{}; for i := 1; i < 4; i++ { r = append(r, fv(i)); if i == 1 { fv = f2 } else { fv = f1 } }; return r }; out := run(); out`,
+	`func f1(a int) int { return a + 10 }; func f2(a int) int { return a * 20 }; fv := f1; s := 0; for i := 0; i < 4; i++ { s += fv(i); fv = f2 }; s`,
+	`type H struct { F func(int) int }; func d(a int) int { return a * 2 }; func n(a int) int { return -a }; h := &H{F: d}; func use(h *H) int { s := 0; for i := 1; i < 4; i++ { s = s*10 + h.F(i); h.F = n }; return s }; r := use(h); r`,
+	// spread calls through methods reached as attributes of locals
+	`type A struct { B int }; func (a *A) Sum(xs ...int) int { t := a.B; for _, x := range xs { t += x }; return t*100 + len(xs) }; func via(a *A, xs []int) int { return a.Sum(xs...) }; g := &A{B: 1}; xs := []int{4, 5, 6}; r := []int{g.Sum(xs...), via(g, xs), via(g, nil), g.Sum(1, 2, 3), via(g, xs[:1])}; r`,
+	// chains of constant additions: float64 addition is not associative; integers settle after repeated rewriting
+	`func f(x float64) float64 { return x + 1 + 2 }; func g(x float64) float64 { x = x + 1 + 1; return x - 1 - 1 }; r := []float64{f(1e16), g(9007199254740992.0), f(0.1) - 3, g(0.1)}; r`,
+	`func f(n int) int { n = n + 1 + 2; n = n - 1 - 1 + 5; if n > 3 { n = n + 2 + 3 }; return n }; func g(b byte) byte { b = b + 200 + 100; return b + 1 + 1 }; r := []int{f(1), f(40), int(g(7))}; r`,
+	`x := 1e16; y := x + 1 + 2; z := 0.1 + 1 - 1; w := 9007199254740992.0 + 1 + 1; []float64{y, z, w}`,
 	`func f(a int, b int) int { return a / b }; r := f(7, 0); r`,
 	`func f(a int8, b int8) int8 { c := a - b; c++; c = c + 1; c = c - 3; return c * a }; r := f(100, -100); r`,
 	`func f(s []int) int { s[0] = s[1]; s[2] += 5; return s[3] }; r := f([]int{1,2,3}); r`,
